@@ -33,8 +33,9 @@ struct Access
     int drop_connected = 0;
     int group;          // number of W before it (reads with equal group may overlap)
     int granted = 0, released = 0, grants = 0, ready = 0, start_called = 0;
-    std::optional<std::variant<ro_t, rw_t>> held;
-    std::optional<ro_t> copy;
+    // the access wrapper(s), type-erased (value and void mutexes share the bookkeeping; no reference counts of their own)
+    using holder = std::unique_ptr<void, void (*)(void*)>;
+    holder held{nullptr, +[](void*) {}}, copy{nullptr, +[](void*) {}};
 };
 static Access* A;
 static int N;
@@ -109,9 +110,15 @@ static void wait_next_granted(int i)
     }
 }
 
-template <int MAXLEN, int KEEP_OPSTATES = 0, int INLINE_RELEASE = 0>
+template <int MAXLEN, int KEEP_OPSTATES = 0, int INLINE_RELEASE = 0, typename M = mutex_t>
 static void prog()
 {
+    using rw_t = typename M::readwrite_access_type;
+    using ro_t = typename M::read_access_type;
+    constexpr bool VOIDM = std::is_same_v<M, ex::async_rw_mutex<void>>;
+    auto ver = [](auto& w) { if constexpr (VOIDM) { (void) w; return -1; } else return w.get().version; };
+    auto bump = [](auto& w) { if constexpr (VOIDM) (void) w; else ++w.get().version; };
+    (void) ver; (void) bump;
     static Access acc[MAXN];
     for (auto& a : acc) a = Access{};
     A = acc;
@@ -142,7 +149,7 @@ static void prog()
         g_kept[0] = &kept[0];
         g_kept[1] = &kept[1];
         struct KeptGuard { std::vector<KeptOp>* k; ~KeptGuard() { for (int w = 0; w < 2; ++w) for (auto& o : k[w]) o.del(o.p); } } kept_guard{kept};
-        auto m = std::make_unique<mutex_t>(Tracked{});
+        auto m = [] { if constexpr (VOIDM) return std::make_unique<M>(); else return std::make_unique<M>(Tracked{}); }();
         std::vector<std::function<void()>> start[2];
         // requests in program order on the main thread
         for (int i = 0; i < N; ++i)
@@ -161,10 +168,10 @@ static void prog()
                 }
                 auto sp = std::make_shared<decltype(s)>(std::move(s));
                 int who = acc[i].role;
-                start[acc[i].role].push_back([i, sp, who] {
-                    auto body = [i](rw_t w) {
-                        on_grant(i, w.get().version);
-                        ++w.get().version;
+                start[acc[i].role].push_back([i, sp, who, ver, bump] {
+                    auto body = [i, ver, bump](rw_t w) {
+                        on_grant(i, ver(w));
+                        bump(w);
                         if (INLINE_RELEASE)
                         {
                             A[i].released = 1;
@@ -174,7 +181,7 @@ static void prog()
                             A[i].ready = 2;
                             return;
                         }
-                        A[i].held.emplace(std::move(w));
+                        A[i].held = Access::holder(new rw_t(std::move(w)), +[](void* q) { delete static_cast<rw_t*>(q); });
                         A[i].ready = 1;
                     };
                     A[i].start_called = 1;
@@ -196,9 +203,9 @@ static void prog()
                 }
                 auto sp = std::make_shared<decltype(s)>(std::move(s));
                 int who = acc[i].role;
-                start[acc[i].role].push_back([i, sp, copy_read, who] {
-                    auto body = [i, copy_read](ro_t r) {
-                        on_grant(i, r.get().version);
+                start[acc[i].role].push_back([i, sp, copy_read, who, ver] {
+                    auto body = [i, copy_read, ver](ro_t r) {
+                        on_grant(i, ver(r));
                         if (INLINE_RELEASE)
                         {
                             A[i].released = 1;
@@ -208,8 +215,8 @@ static void prog()
                             A[i].ready = 2;
                             return;
                         }
-                        if (copy_read) A[i].copy.emplace(r);    // a second owner of the same read access
-                        A[i].held.emplace(std::move(r));
+                        if (copy_read) A[i].copy = Access::holder(new ro_t(r), +[](void* q) { delete static_cast<ro_t*>(q); });    // a second owner of the same read access
+                        A[i].held = Access::holder(new ro_t(std::move(r)), +[](void* q) { delete static_cast<ro_t*>(q); });
                         A[i].ready = 1;
                     };
                     A[i].start_called = 1;
@@ -229,11 +236,11 @@ static void prog()
                 while (!acc[i].ready && ++guard < 2000) sched_yield();
                 PMC_ASSERT(acc[i].ready, "never-granted", "access %d (%c) not granted although every earlier access was released or is being released", i, acc[i].kind);
                 if (acc[i].ready == 2) continue;    // released inside its continuation
-                pmc_note("RELEASE access %d (%c) copy=%d", i, acc[i].kind, (int) acc[i].copy.has_value());
+                pmc_note("RELEASE access %d (%c) copy=%d", i, acc[i].kind, (int) (bool) acc[i].copy);
                 if (acc[i].copy)
                 {
                     acc[i].held.reset();    // first owner gone, the copy still holds the access
-                    PMC_ASSERT(Tracked::live >= 1, "value-destroyed-early", "wrapped value destroyed while a read wrapper copy is alive");
+                    PMC_ASSERT(VOIDM || Tracked::live >= 1, "value-destroyed-early", "wrapped value destroyed while a read wrapper copy is alive");
                     acc[i].released = 1;
                     acc[i].copy.reset();
                 }
@@ -266,8 +273,9 @@ int main(int argc, char** argv)
         {"rw_len2_opstates_kept", prog<2, 1>, 2, 3, 0.15, 0.05, 1, focus, sites, nullptr},
         {"rw_len3_opstates_kept", prog<3, 1>, -1, 2, 0, 0.1, 1, focus, sites, nullptr},
         {"rw_len3_inline_release", prog<3, 0, 1>, 1, 2, 0.1, 0.05, 1, focus, sites, nullptr},
+        {"rw_len3_void", prog<3, 0, 0, ex::async_rw_mutex<void>>, 1, 2, 0.15, 0.1, 1, "the void specialisation async_rw_mutex<void> (own read()/readwrite() bookkeeping): same programs, grant log only", sites, nullptr},
     };
-    static const char* assumptions[] = {"sequentially consistent interleavings only", "2 starting threads + the requesting main thread", "the non-void specialisation async_rw_mutex<T> (the void specialisation shares the state machine)"};
+    static const char* assumptions[] = {"sequentially consistent interleavings only", "2 starting threads + the requesting main thread", "async_rw_mutex<T> with a tracked value; the void specialisation with the same programs at length <= 3 (no value to check)"};
     pmc_config cfg{};
     cfg.property_id = "C04";
     cfg.rule = "request words over {R,W} (len<=3, thorough 4) x role of each access {started by thread A, by thread B, never started: sender dropped / connected operation state destroyed} x {mutex destroyed right after the requests} x {read wrapper copied} x {start_detached | manual connect/start with operation states kept alive to the end | wrapper dropped inside the continuation, which then waits for the next started access} (data choices) x all schedules within the deviation bound";
